@@ -374,6 +374,22 @@ struct Exec {
       else return !m->is_zero_entry((Index)md.cid[b], (Index)md.cid[a]);
     }
   }
+  // Footprints of the recorded open findings whose transitions can kill the process instead of throwing or returning
+  // a wrong result.  Such a transition is first executed in a forked probe; if the probe dies, the death gets a class
+  // of its own (C06:crash:<family>:...) and the transition is not executed in the explorer.  Any other death stays a
+  // generic CRASH:* record of the harness.
+  //  * chain matrix without stored barcode, caller-chosen IDs: insert_boundary while the IDs of the present cells do
+  //    not increase along the filtration (the reduction orders cells by ID)
+  //  * RU matrix, caller-chosen IDs different from positions: every operation that performs vine swaps
+  bool fatal_footprint(int op) const {
+    if (!explicit_ids) return false;
+    OpKind k = kind_of(op);
+    if (RU) return k == SWAP || k == SWAPZ || k == REMMAX;
+    if (BAR || k != INS) return false;
+    for (size_t p = 1; p < md.order.size(); ++p)
+      if (md.cid[md.order[p - 1]] > md.cid[md.order[p]]) return true;
+    return false;
+  }
   std::vector<int> enabled_ops() {
     std::vector<int> r;
     if (dead) return r;
@@ -1067,12 +1083,34 @@ struct Driver {
     (void)e.key();
     e.observe();
   }
-  std::string crash_class(int op) const { return "C06:crash:" + C::family() + ":after_" + op_name[kind_of(op)]; }
+  // class of a transition that killed the forked probe: option-set family + the two last operations
+  std::string crash_class(const std::vector<int>& hist_with_op) const {
+    std::string c = "C06:crash:" + C::family() + (explicit_ids ? "+ids" : "") + ":after_";
+    size_t n = hist_with_op.size();
+    if (n >= 2) c += std::string(op_name[kind_of(hist_with_op[n - 2])]) + "_then_";
+    if (n >= 1) c += op_name[kind_of(hist_with_op[n - 1])];
+    return c + ":died";
+  }
+  // does the last operation of p match a footprint in the state reached by the operations before it?
+  bool last_op_has_fatal_footprint(const std::vector<int>& p) const {
+    if (p.empty()) return false;
+    bool was = g_silent;
+    g_silent = true;
+    long before = g_bad;
+    Exec<C> e(U, explicit_ids);
+    for (int op : prefix) e.apply(op, false);
+    for (size_t i = 0; i + 1 < p.size(); ++i) e.apply(p[i], false);
+    bool r = e.fatal_footprint(p.back());
+    g_bad = before;
+    g_silent = was;
+    return r;
+  }
   std::vector<int> enabled(const std::vector<int>& hist) const {
     vf::set_case(describe(hist) + "[computing the enabled operations]");
     g_silent = true;
     long before = g_bad;
     std::vector<int> r;
+    std::vector<char> risky;
     {
       Exec<C> e(U, explicit_ids);
       for (int op : prefix) e.apply(op, false);
@@ -1085,31 +1123,37 @@ struct Driver {
           for (int op : r) if (kind_of(op) != INS) f.push_back(op);
           r.swap(f);
         }
+        for (int op : r) risky.push_back(probe_crashes || e.fatal_footprint(op));
       }
     }
     g_silent = false;
     vf::end_case();
-    if (!probe_crashes) return r;
-    // transitions that kill the process (sanitizer report, signal, hang) are found in a forked probe, reported from
-    // here, and not handed to the explorer
+    // transitions matching a footprint of a recorded finding (all transitions with --probe 1) are executed in a forked
+    // probe first; those that kill the process (sanitizer report, signal, hang) are reported from here with a class
+    // of their own and are not handed to the explorer
+    std::vector<size_t> sel;
+    for (size_t i = 0; i < r.size(); ++i) if (risky[i]) sel.push_back(i);
+    if (sel.empty()) return r;
     std::vector<std::string> errs;
     std::vector<int> h = hist;
     h.push_back(0);
-    std::string res = probe(r.size(), [&](size_t i) { std::vector<int> hh = hist; hh.push_back(r[i]); run_quiet(hh); }, errs);
-    std::vector<int> ok;
+    std::string res = probe(sel.size(), [&](size_t j) { std::vector<int> hh = hist; hh.push_back(r[sel[j]]); run_quiet(hh); }, errs);
+    std::vector<char> died(r.size(), 0);
     size_t ei = 0;
-    for (size_t i = 0; i < r.size(); ++i) {
-      if (i < res.size() && res[i] == '!') {
-        h.back() = r[i];
+    for (size_t j = 0; j < sel.size(); ++j) {
+      vf::stats().add("transitions_probed_in_a_fork");
+      if (j < res.size() && res[j] == '!') {
+        died[sel[j]] = 1;
+        h.back() = r[sel[j]];
         vf::set_case(describe(h));
-        vf::mismatch(crash_class(r[i]), C::name() + " " + (ei < errs.size() ? errs[ei] : std::string("process died")));
+        vf::mismatch(crash_class(h), C::name() + " " + (ei < errs.size() ? errs[ei] : std::string("process died")));
         vf::end_case();
         vf::stats().add("transitions_that_killed_the_process");
         ++ei;
-      } else {
-        ok.push_back(r[i]);
       }
     }
+    std::vector<int> ok;
+    for (size_t i = 0; i < r.size(); ++i) if (!died[i]) ok.push_back(r[i]);
     return ok;
   }
   std::string run(const std::vector<int>& hist) const {
@@ -1152,11 +1196,11 @@ int run_cfg(const vf::Args& a, double t0) {
     for (size_t n = 0; n <= h.size(); ++n) {   // every prefix: the first step that goes wrong is shown
       std::vector<int> p(h.begin(), h.begin() + n);
       vf::set_case(d.describe(p));
-      if (d.probe_crashes) {
+      if (d.probe_crashes || d.last_op_has_fatal_footprint(p)) {
         std::vector<std::string> errs;
         std::string res = probe(1, [&](size_t) { d.run_quiet(p); }, errs);
         if (res != "k") {
-          vf::mismatch(d.crash_class(p.empty() ? 0 : p.back()), C::name() + " " + (errs.empty() ? std::string("process died") : errs[0]));
+          vf::mismatch(d.crash_class(p), C::name() + " " + (errs.empty() ? std::string("process died") : errs[0]));
           break;
         }
       }
